@@ -222,13 +222,14 @@ def run_c10(tier, seed, res):
 
 def run_c11(tier, seed, res):
     E.run_workload(res, "mon", "C11", sz(tier, 4400, 176000), tier, seed, per_case_timeout=5.0)
+    E.run_workload(res, "mon", "C11cli", sz(tier, 48, 1200), tier, seed, extra=cli_extra("C11"), per_case_timeout=20.0)
     return {
         "rule": "case = configuration (windows and n-gram sizes 0..4, bucket 1..5, solver = (case/11) mod 8) x corpus class = case mod 11 "
                 "{normal, empty, single sentence, single character, no word boundary, only word boundaries, untagged, partially tagged, "
                 "ambiguous tags, partial annotation, all unknown}; Trainer::new/add_example/train, to_vec/write/read, Predictor::new(false|true), "
                 "predict, fill_tags and every accessor run under catch_unwind; weights checked against the 16-bit range through the mirror; "
                 "every case is non-trivial (an Err from training is a legal outcome and is counted)",
-        "required": ["training_returned_model", "training_returned_error", "configs_with_type_window_gt_char_window",
+        "required": ["training_returned_model", "training_returned_error", "train_cli_wrote_model", "configs_with_type_window_gt_char_window",
                      "configs_with_n_greater_than_window", "configs_with_window_0", "corpora_with_tags"] +
                     ["solver_%d" % i for i in range(8)] +
                     ["corpus_class_%s" % c for c in ["normal", "empty", "single_sentence", "single_character", "no_word_boundary",
@@ -252,6 +253,67 @@ def run_c12(tier, seed, res):
     }
 
 
+
+# ------------------------------------------------------------------ C17
+def run_c17(tier, seed, res):
+    E.run_workload(res, "mon", "C17", sz(tier, 1500, 60000), tier, seed, per_case_timeout=5.0)
+    return {
+        "rule": "case = generated KyTea binary file (char map incl. the six type letters and sometimes the bogus type byte 0x04, windows 1..4, "
+                "tries for char and type n-grams with reversed goto order and suffix outputs on non-final states, 0..8 dictionaries with "
+                "membership masks and bucketed weights, 0..3 tag slots, optional self / sub-word dictionaries, extra stored weights, trailing "
+                "bytes); KyteaModel::read -> Model::try_from -> mirror must equal the generator's ground truth and predict like the reference "
+                "scorer; every prefix shorter than what the reader consumes must give Err without panic (all prefixes for 1 in 4 files and "
+                "for small files; case 0 = resources/kytea-model.bin with all its prefixes); non-trivial iff the file has an n-gram or a word",
+        "required": ["prefixes_tried", "files_with_type_byte_0x04", "files_with_several_dictionaries", "files_with_tag_slots",
+                     "files_with_word_longer_than_bucket", "files_with_windows_that_differ", "files_with_extra_stored_weights",
+                     "char_ngrams_in_files", "type_ngrams_in_files", "dictionary_words_in_files", "shipped_kytea_model_checked",
+                     "files_with_every_prefix_enumerated"],
+    }
+
+
+
+# ------------------------------------------------------------------ CLI-driving workloads
+def cli_extra(tag):
+    bins = E.build("bins")
+    scratch = os.path.join(E.BUILD, "scratch", tag)
+    os.makedirs(scratch, exist_ok=True)
+    return ["--bins", bins, "--scratch", scratch]
+
+
+def run_c19(tier, seed, res):
+    E.run_workload(res, "mon", "C19lib", sz(tier, 3000, 100000), tier, seed)
+    E.run_workload(res, "mon", "C19tool", sz(tier, 400, 12000), tier, seed, extra=cli_extra("C19"), per_case_timeout=10.0)
+    return {
+        "rule": "library: case = generated model + new dictionary (words from the texts, some old words kept); after replace_dictionary the "
+                "score change at every boundary must equal contribution(new) - contribution(old) and the mirror of the edited model must equal "
+                "the original in every other field; tool: the real manipulate_model binary dumps and re-imports a dictionary whose words contain "
+                "commas, quotes, spaces, CR/LF, multi-byte characters, 32-bit weights and arbitrary comments and must reproduce the zstd-decoded "
+                "model byte for byte; a CSV row with one weight removed/added must be rejected without a crash; "
+                "non-trivial iff a dictionary entry touches a boundary (library) / every tool case",
+        "required": ["boundaries_touched_by_old_dictionary", "boundaries_touched_by_new_dictionary", "edits_to_empty_dictionary",
+                     "edits_from_empty_dictionary", "words_with_comma_quote_or_newline", "weights_outside_16_bit",
+                     "non_empty_comments", "dictionaries_empty", "corrupted_csv_runs"],
+    }
+
+
+def run_c20(tier, seed, res):
+    E.run_workload(res, "mon", "C20p", sz(tier, 60, 2400), tier, seed, extra=cli_extra("C20p"), per_case_timeout=30.0)
+    E.run_workload(res, "mon", "C20e", sz(tier, 150, 6000), tier, seed, extra=cli_extra("C20e"), per_case_timeout=20.0)
+    return {
+        "rule": "predict: case = generated model x input stream of 1..12 lines (empty lines, NUL, spaces, slashes, backslashes, half-width, interior CR) "
+                "x all 16 subsets of {--no-norm, --predict-tags, --scores, --tag-scores} each with a random --wsconst list; stdout of the real "
+                "binary is compared byte for byte with the output computed line by line from library calls on fresh sentences (layout: line, "
+                "newline, score block, tag-score block; rejected line = empty line without blocks); without blocks every output line is "
+                "also parsed by the reference parser and must unescape to the input line; exit 101 / signal = crash. evaluate: generated "
+                "tokenized references x {char, word} x {normalised, --no-norm} (+ --predict-tags, --wsconst): counts and P/R/F1 recomputed from "
+                "library predictions (word metric by set intersection of (span, tags)); for tagged references without --predict-tags the two "
+                "modes are compared with each other on text the normaliser leaves unchanged; distinct = distinct (model, input)",
+        "required": ["streams_with_empty_first_line", "streams_with_rejected_line", "models_with_tag_models",
+                     "lines_checked_by_reference_parser", "evaluate_char_runs_compared", "evaluate_word_runs_compared",
+                     "mode_equivalence_pairs_compared"] + ["predict_runs_flags_%s" % format(m, "04b") for m in range(16)],
+    }
+
+
 PROPS = {
     "C01": {"level": "exploration", "run": run_c01},
     "C02": {"level": "exploration", "run": run_c02},
@@ -267,6 +329,9 @@ PROPS = {
     "C12": {"level": "exploration", "run": run_c12},
     "C14": {"level": "exploration", "run": run_c14},
     "C15": {"level": "exploration", "run": run_c15},
+    "C17": {"level": "exploration", "run": run_c17},
+    "C19": {"level": "exploration", "run": run_c19},
+    "C20": {"level": "exploration", "run": run_c20},
 }
 
 
